@@ -1081,6 +1081,8 @@ func Run(c *ev.Ctx) int {
 	run(func() { laneInternalNames(c, "I/sidecar", true) })
 	run(func() { laneSettingsVsObjects(c, "O/xattr", false) })
 	run(func() { laneSettingsVsObjects(c, "O/sidecar", true) })
+	run(func() { laneOtherSettingDelete(c, "U/xattr", false) })
+	run(func() { laneOtherSettingDelete(c, "U/sidecar", true) })
 	run(func() { laneCreateCreate(c, false) })
 	run(func() { laneCreateCreate(c, true) })
 	ra := c.Rng("acl")
